@@ -296,12 +296,19 @@ impl Peer {
             return Err(Error::from(ErrorKind::InvalidInput));
         }
 
-        if self.public_key.is_some() {
-            assert_eq!(
-                response.public_key,
-                self.public_key.unwrap(),
-                "This peer instance is to handle a peer with a different public key"
-            );
+        if let Some(known_public_key) = self.public_key {
+            if response.public_key != known_public_key {
+                // a connection stays with the key it was authenticated with
+                warn!(
+                    "peer : {:?} is known as {:?} but answered the handshake as {:?}",
+                    self.index,
+                    known_public_key.to_base58(),
+                    response.public_key.to_base58()
+                );
+                self.mark_as_disconnected(current_time);
+                io_handler.disconnect_from_peer(self.index).await?;
+                return Err(Error::from(ErrorKind::InvalidInput));
+            }
         }
 
         self.block_fetch_url = response.block_fetch_url;
